@@ -270,6 +270,11 @@ Theorem mielens_agrees_on_Q : forall (I0 I2 K : cplx Q) (cp sp cg sg : Q),
 Proof. exact mielens_assemble_Q_R. Qed.
 Print Assumptions mielens_agrees_on_Q.
 
+Theorem lens_agrees_on_Q : forall (nodes : list (node Q)) (cg sg : Q) (K : cplx Q),
+  cvQ2R (lens_assemble QOr nodes cg sg K) = lens_assemble RO (map nQ2R nodes) (Q2R cg) (Q2R sg) (cQ2R K).
+Proof. exact lens_assemble_Qr_R. Qed.
+Print Assumptions lens_agrees_on_Q.
+
 (** ** non-vacuity: the hypotheses are satisfiable and the objects non-trivial.
     (3/5, 4/5) is a genuine rotation; on it the executed Q model gives a non-zero field that the rotation
     really moves (so covariance is not 0 = 0); a grid with n = 5, m = 2 exists; a non-empty cluster exists. *)
